@@ -32,6 +32,8 @@ type val struct {
 }
 
 var scalarPool = []string{"a", "b", "1", "x y", "true", "null", "~", "a ", " a",
+	// numbers spelled differently are different scalars
+	"1.0", "01", "3.1", "3.10", "1e1", "10", "0x1",
 	// spellings that differ from a YAML keyword in letter case only: other strings
 	"True", "tRuE", "FALSE", "false", "fALSE", "Null", "A"}
 var exprPool = []string{"${{ matrix.v }}", "${{ fromJSON(env.X) }}", "pre-${{ github.sha }}"}
@@ -257,6 +259,9 @@ func genMatrixCase(r *hx.Rng) *genMatrix {
 			row.expr = "${{ fromJSON(env.R) }}"
 			if r.Chance(1, 2) {
 				row.style = 1 + r.Intn(4)
+			} else if i%2 == 1 {
+				// one placeholder whose body has doubled braces (format's escapes)
+				row.expr = "${{ fromJSON(format('[{{\"name\":\"{0}\"}}]', github.ref_name)) }}"
 			}
 		} else {
 			n := r.Intn(5)
